@@ -6,7 +6,11 @@ EXPLANATION = (
     "partial, two halves. PROVED in Coq (coq/Properties_C08.v, closed under the global context): (1) a reference syntax written from RFC 8259 and from XML 1.0 "
     "(JxJsonSpec.v, JxXmlSpec.v): json_parse (json_print d) = d and xml_parse (xml_print x) = x for every well-formed DOM, white space between JSON tokens is "
     "irrelevant, the parsers are total (never out of fuel); for JSON also the converse (JxJsonSound.v): the accepted texts are exactly the RFC 8259 renderings of the returned DOM "
-    "(free white space, the four spellings of a string character, the number lexeme carried by the DOM), so the reference parser accepts nothing else; (2) theorems about a hand-written model of the adapter logic of rapidjson_archive.h / pugixml_archive.h "
+    "(free white space, the four spellings of a string character, the number lexeme carried by the DOM), so the reference parser accepts nothing else; the same for the XML subset (JxXmlSound.v: accepted texts = the generative description, both directions), with two "
+    "places, stated as theorems, where that description is wider than XML 1.0 (white space around the document element spelled by references / CDATA; references inside the "
+    "XML declaration); loading does not depend on the order of members at any depth for every target type incl. std::map (JxMemberOrder.v); validation error paths "
+    "(JxPathModel.v, JxPathProofs.v): what GetPath of the JSON scopes yields for every nesting as an explicit function of the location, equal to the RFC 6901 pointer outside "
+    "the defect class (no sequence on the way, plain names) and refuted inside it (J48, J49); (2) theorems about a hand-written model of the adapter logic of rapidjson_archive.h / pugixml_archive.h "
     "(JxModel.v): which DOM is built, how a DOM is read back, what Finalize does with a writer failure. VALIDATED PER DOCUMENT, not proved: RapidJSON 1.1.0 and pugixml "
     "1.13 themselves (their writers, parsers, number<->text conversions, encoding streams). On every run each document the implementation produces is decoded per the "
     "configured encoding, parsed by the extracted verified reference parser (the independent standard parser) and its DOM compared with the model's DOM of the value "
@@ -21,13 +25,15 @@ TRUSTED_BASE = [
     "the floating point oracles of the model driver: OCaml float_of_string = libc strtod (correctly rounded) for 'this lexeme denotes this double' and for int->double",
     "harness/drv_jx.cpp (value syntax, catalogue of C++ targets, exception -> category)",
     "props/jx_common.py: generators, hand-written JSON/XML emitters for the re-renderings, defect-class predicates, Python codecs for encoding the re-renderings",
+    "props/jx_paths.py: generator of documents for the classes with validators, its own walk computing the RFC 6901 pointers (cross-checked against the Coq specification on every case), the two class predicates (an index on the way; a name needing an escape or an empty name on the way)",
     "RapidJSON 1.1.0 and pugixml 1.13 are NOT trusted and NOT modelled: validated document by document",
 ]
 ASSUMPTIONS = [
     "the XML archive is run with paddingCharNum >= 1 when enableFormat is on (an assert in Finalize documents this precondition of the options; the JSON archive is run with 0..8)",
     "values are restricted to what the formats can carry: valid Unicode text, XML 1.0 characters and names for XML; non-finite doubles are included (a raised error would satisfy the property)",
-    "the catalogue of typed targets is a finite sample of the type universe (59 C++ types); the library has no dynamic tree type of its own",
+    "the catalogue of typed targets is a finite sample of the type universe (61 C++ types); the library has no dynamic tree type of its own",
     "the model of the adapter is tied to /repo by correspondence on the generated cases only",
+    "validation error paths: pugixml's xml_node::path() is taken to be the names of the ancestor-or-self elements joined by the separator; mismatch / overflow policies of the path runs are mostly Skip (a throwing load has no map to compare)",
     "RapidJSON's / pugixml's encoding detection of BOM-less streams is mirrored in the model driver's glue (third-party behaviour, validated per document)",
 ]
 
